@@ -93,6 +93,7 @@ type allocSem struct {
 	marks    int
 	succ     int
 	leaks    []string
+	mapVals  map[ssa.Value]bool
 	notFull  []string
 	entryVer int
 	calls    []*ssa.Call
@@ -181,6 +182,7 @@ func (a *allocSem) run(fn *ssa.Function, st0 aState, args []aVal, depth int, top
 		return []aRet{{st: aState{ver: a.fresh(fn), marked: st0.marked}}}
 	}
 	recv := ssa.Value(fn.Params[0])
+	isMapVal := func(v ssa.Value) bool { return fieldLoad(v, recv, "usedMap") || a.mapVals[v] }
 	vals := map[ssa.Value]aVal{}
 	tup := map[ssa.Value][]aVal{}
 	helperRets := map[*ssa.Call][]aRet{}
@@ -307,7 +309,7 @@ func (a *allocSem) run(fn *ssa.Function, st0 aState, args []aVal, depth int, top
 					}
 				}
 			case *ssa.Lookup:
-				if fieldLoad(x.X, recv, "usedMap") {
+				if isMapVal(x.X) {
 					if k := val(x.Index); k.k == akOff {
 						if x.CommaOk {
 							vals[x] = aVal{akOther, k.ver} // the tuple; Extract #1 picks the flag
@@ -317,7 +319,7 @@ func (a *allocSem) run(fn *ssa.Function, st0 aState, args []aVal, depth int, top
 					}
 				}
 			case *ssa.Extract:
-				if lk, ok := x.Tuple.(*ssa.Lookup); ok && x.Index == 1 && fieldLoad(lk.X, recv, "usedMap") {
+				if lk, ok := x.Tuple.(*ssa.Lookup); ok && x.Index == 1 && isMapVal(lk.X) {
 					if k := val(lk.Index); k.k == akOff {
 						vals[x] = aVal{akOK, k.ver}
 					}
@@ -375,7 +377,7 @@ func (a *allocSem) run(fn *ssa.Function, st0 aState, args []aVal, depth int, top
 					st.hit = false
 				}
 			case *ssa.MapUpdate:
-				if fieldLoad(x.Map, recv, "usedMap") {
+				if isMapVal(x.Map) {
 					a.marks++
 					k := val(x.Key)
 					okVal := false
@@ -397,14 +399,28 @@ func (a *allocSem) run(fn *ssa.Function, st0 aState, args []aVal, depth int, top
 				}
 			case *ssa.Call:
 				if bi, isB := x.Call.Value.(*ssa.Builtin); isB {
-					if bi.Name() == "delete" && fieldLoad(x.Call.Args[0], recv, "usedMap") {
+					if bi.Name() == "delete" && isMapVal(x.Call.Args[0]) {
 						st.miss = false
 						st.hit = false
 					}
 					continue
 				}
 				callee := x.Call.StaticCallee()
-				if callee != nil && len(x.Call.Args) > 0 && x.Call.Args[0] == recv && callee.Blocks != nil && len(callee.Params) > 0 {
+				mapArg := false
+				if callee != nil && callee.Blocks != nil {
+					for i, ar := range x.Call.Args {
+						if isMapVal(ar) && i < len(callee.Params) {
+							// a helper that works on the set itself (a method of a named map type): analysed
+							// in place, its parameter standing for the set
+							if a.mapVals == nil {
+								a.mapVals = map[ssa.Value]bool{}
+							}
+							a.mapVals[callee.Params[i]] = true
+							mapArg = true
+						}
+					}
+				}
+				if callee != nil && len(x.Call.Args) > 0 && (x.Call.Args[0] == recv || mapArg) && callee.Blocks != nil && len(callee.Params) > 0 {
 					var cargs []aVal
 					for _, ar := range x.Call.Args[1:] {
 						cargs = append(cargs, val(ar))
